@@ -28,6 +28,7 @@ ASSUMPTIONS = [
 PRE_LEAN = C.s2_trace_tensors   # S2: tensors.py kernels re-traced on every run
 EXTRA_LEAN_MODULES = ("Bridge.TensorsRotate",)
 JIT_TWIN = ('voigt',)   # groups of harness/jittwin.py: the numba-compiled code is run on the same battery and compared
+OPTIMIZED_TWIN = True   # the implementation-side search is repeated under `python -O` (validation must not live in assert / __debug__)
 TRUSTED = ["numpy einsum + an independent Voigt index table as the reference for the weighted sum of rotated tensors"]
 
 VOIGT = {(0, 0): 0, (1, 1): 1, (2, 2): 2, (1, 2): 3, (2, 1): 3, (0, 2): 4, (2, 0): 4, (0, 1): 5, (1, 0): 5}
@@ -153,12 +154,17 @@ def phases(assemblage):
     return [core.MineralPhase(p) for p in assemblage]
 
 
-def build_case(rng, assemblage, n, n_steps, tex_kind, stiff_kind, extra_same_phase=False):
+def build_case(rng, assemblage, n, n_steps, tex_kind, stiff_kind, extra_same_phase=False, same_orientations=False):
     minerals = []
     for p in assemblage:
         As, fs = [], []
-        for _ in range(n_steps):
+        for i_ in range(n_steps):
             A, f = texture(rng, tex_kind, n)
+            if same_orientations and i_ > 0:
+                # consecutive snapshots with the SAME orientations and redistributed volumes (boundary migration without rotation,
+                # or a repeated texture with other weights): the average must follow the volumes
+                A = As[-1].copy()
+                f = rng.dirichlet(np.ones(n) * 0.5)
             As.append(A)
             fs.append(f)
         minerals.append(make_mineral(p, As, fs))
@@ -266,8 +272,11 @@ def run(ctx, res):
         n_steps = int(rng.integers(1, 4))
         tk = tex_kinds[k % len(tex_kinds)]
         sk = stiff_kinds[(k // 4) % len(stiff_kinds)]
-        minerals, asm, phis, stiff = build_case(rng, assemblage, n, n_steps, tk, sk)
-        tag = f"{ANAME[assemblage]}/{tk}/{sk}"
+        same_or = (k % 3 == 2)
+        if same_or:
+            n_steps, n = max(n_steps, 2), max(n, 2)
+        minerals, asm, phis, stiff = build_case(rng, assemblage, n, n_steps, tk, sk, same_orientations=same_or)
+        tag = f"{ANAME[assemblage]}/{tk}/{sk}" + ("/same_orientations_other_volumes" if same_or else "")
         kind, out = submit(minerals, asm, phis, stiff, tag)
         res.count("assemblage:" + ANAME[assemblage])
         res.count("texture:" + tk)
